@@ -590,7 +590,8 @@ pub fn handle_xreadgroup(storage: &Arc<StorageEngine>, db: usize, parts: &[RespF
                 if arg == "COUNT" && i + 1 < parts.len() {
                     count = match &parts[i + 1] {
                         RespFrame::BulkString(Some(bytes)) => {
-                            String::from_utf8_lossy(bytes).parse::<usize>().ok()
+                            // COUNT 0 means no limit, the same as no COUNT
+                            String::from_utf8_lossy(bytes).parse::<usize>().ok().filter(|&n| n > 0)
                         }
                         _ => None,
                     };
